@@ -85,6 +85,7 @@ def gen_inventory(r, n_classes=None, shape=None, nested=False, relative=0, n_nod
     files = []
     abs_name = {x: dotted(loc, x) for x in names}
     as_init = set(x for x in names if r.chance(init_classes, 100))
+    zdefs = []
     for x in names:
         incs = []
         for y in inc[x]:
@@ -95,13 +96,19 @@ def gen_inventory(r, n_classes=None, shape=None, nested=False, relative=0, n_nod
             incs.append(nm)
         for _ in range(missing):
             if r.chance(35, 100):
-                incs.insert(r.below(len(incs) + 1), r.choice(["missing.one", "gone", "missing_two", ".relmissing"]))
+                incs.insert(r.below(len(incs) + 1), r.choice(["missing.one", "gone", "missing_two", ".relmissing", "odd\\$[q]", "a$[b]", "sp ace"]))
         extra = []
         if refnames and r.chance(refnames, 100) and names:
             tgt = r.choice(names)
             extra.append(["sel", abs_name[tgt]])
         if param_refs and r.chance(param_refs, 100):
             extra.append(["ref_" + x, r.choice(["${last}", "got-${last}", "${m:who}", "${order}", "${_reclass_:name:short}"])])
+        if refnames and incs and r.chance(refnames // 2, 100):
+            # a class-level include written as a reference whose value comes from a class merged earlier (zdefs);
+            # on cyclic graphs this makes the back edge a reference-bearing name
+            j = r.below(len(incs))
+            zdefs.append(["inc_%s_%d" % (x, j), incs[j]])
+            incs[j] = "${inc_%s_%d}" % (x, j)
         body = class_body(r, abs_name[x], incs, extra_params=extra)
         if x in as_init:
             path = "classes/" + "/".join(loc[x] + [x, "init"]) + "." + r.choice(["yml", "yaml"])
@@ -126,6 +133,10 @@ def gen_inventory(r, n_classes=None, shape=None, nested=False, relative=0, n_nod
             body["applications"] = [r.choice(["app_a", "~app_a", "app_n", "app_b", "~app_c"]) for _ in range(r.range(1, 3))]
         d = r.choice([[], ["g1"], ["_hid"], ["g1", "g2"], ["g.dot"]]) if node_dirs else []
         node_files.append({"path": "nodes/" + "/".join(d + [nn]) + "." + r.choice(["yml", "yaml"]), "content": body})
+    if zdefs:
+        files.append({"path": "classes/zdefs.yml", "content": {"parameters": G.M(zdefs)}})
+        for nf in node_files:
+            nf["content"]["classes"] = ["zdefs"] + nf["content"].get("classes", [])
     config = {"compose_node_name": compose}
     if cfg:
         config.update(cfg)
